@@ -1,5 +1,5 @@
 """C12: asin/acos NaN exactly for |x| > 1; asin odd; acos(x) within 1 ulp of pi/2 - asin(x) (decided).
-The backward/forward error bound and monotonicity are not decided."""
+The backward/forward accuracy clause is decided for the std::sqrt builds; monotonicity is not decided."""
 from . import common, lib
 from .lib import M, FIN, E, sym
 from .c09 import const_of
@@ -40,6 +40,8 @@ def run(tier, seed):
             # share their value numbers
             if cfg == "K17A":
                 continue        # the abacus loop is summarised with join symbols: the two relations are decided for the std::sqrt builds
+            if cfg == "K17" or tier != "quick":
+                asin_accuracy(V, ctx, cfg)
             r = ctx.run("w_asin_oddsum", [dom])
             lib.check_regions(V, r, [("|x|<=1", [], ("const", 0))], lambda a, o: o != ("ret", 0), "asin(x) + asin(-x) == 0", site="asin")
             r = ctx.run("w_acos_diff", [dom])
@@ -52,3 +54,70 @@ def run(tier, seed):
             "the sqrt loop share value numbers) (acos uses phi/2 = fixpidiv2 - 1). NOT DECIDED: the 2-ulp/4-ulp backward-forward "
             "error bound and monotonicity (numeric; composition with sqrt).")
     return V.finish("other", expl, "./fx check C12 --tier %s" % tier, extra={"configs": configs})
+
+
+# ------------------------------------------------------------------ backward/forward accuracy of asin (std::sqrt builds)
+def asin_F(x):
+    """enclosure (Fractions, raw units) of 65536*asin(x/65536) for an integer 0 <= x <= 65536"""
+    from fractions import Fraction
+    from . import realmath as R
+    t = R.asin_iv(R.iv(Fraction(x, 65536)))
+    lo, hi = R.to_frac(t)
+    return 65536 * lo, 65536 * hi
+
+
+def asin_accuracy(V, ctx, cfg):
+    """for every 0 <= x <= 1 there is x' within 2 ulp of x with |asin_lib(x) - asin x'| <= 4 ulp
+       <=>  F(x-2) - 4 <= asin_lib(x) <= F(min(x+2, 1)) + 4     (F = 65536 asin, increasing)
+       <=   |asin_lib(x) - F(x)| <= 4 + 2 F'(x-2)  for x + 2 <= 65536 (F convex on [0,1)); the last arguments are decided one by one."""
+    from fractions import Fraction
+    from . import fxnum, realmath as R
+    from fxai import pipeline as P
+    TOP = 65536 - 160
+    r = ctx.run("w_asin", [("i", 0, 65536)])
+
+    def fprime(x):
+        """enclosure of 1/sqrt(1 - (x/65536)^2) for integer 0 <= x < 65536"""
+        u = 1 - Fraction(x, 65536) ** 2
+        lo = fxnum._sqrt_frac(u, False)
+        hi = fxnum._sqrt_frac(u, True)
+        return 1 / hi, 1 / lo
+
+    def truth(a, b, x0):
+        f0 = asin_F(x0)
+        return f0, (fprime(a)[0], fprime(b)[1])
+
+    def bound(a, b):
+        if b > TOP:
+            return None
+        return 4 + 2 * fprime(max(a - 2, 0))[0]
+
+    def adapt(a):
+        return max(1, min(64, (65536 - a) // 96))
+
+    def point_ok(x, out):
+        if out[0] != "ret":
+            return False
+        lo = asin_F(max(x - 2, 0))[0] - 4
+        hi = asin_F(min(x + 2, 65536))[1] + 4
+        return lo <= out[1] <= hi
+    fails, info = fxnum.prove_cells(V, r, truth, bound, "asin backward/forward accuracy", "asin", box=(0, TOP), adapt=adapt, min_cells=1000)
+    fxnum.triage_fails(V, r, fails, point_ok, "exists x' within 2 ulp of x with |asin(x) - asin x'| <= 4 ulp", "asin")
+    # the last arguments below 1: constant propagation, exact criterion
+    for x in range(TOP + 1, 65537):
+        rs = r.an.run(P.init_state(r.an.fn, [("i", x, x)]))
+        vals = set(lib.ret_rng(q) for q in rs.paths)
+        ok = False
+        if len(vals) == 1 and not rs.alarms:
+            lo, hi = next(iter(vals))
+            ok = lo == hi and point_ok(x, ("ret", lo))
+        V.oblige(ok)
+        if not ok:
+            out = r.conc((x,))
+            if not point_ok(x, out):
+                V.violation("exists x' within 2 ulp of x with |asin(x) - asin x'| <= 4 ulp", "asin", "asin(%d) [%s] = %s" % (x, cfg, lib.out_str(out)),
+                            lib.rp(r, (x,), "asin accuracy"))
+            else:
+                V.inconc("w_asin [%s]: argument %d near 1 not decided by constant propagation" % (cfg, x))
+    info["arguments_near_one"] = 65536 - TOP
+    return info
